@@ -9,6 +9,7 @@ mod kf;
 mod props;
 mod refsweep;
 mod spaces;
+mod statemodel;
 
 use common::{Ctx, Tier};
 use std::time::Instant;
@@ -29,6 +30,10 @@ fn main() {
         // scratch: frmc try <pattern> <text>
         let re = fancy_regex::Regex::new(&args[2]).unwrap();
         println!("{:?}", engine::captures_at(&re, &args[3], 0));
+        return;
+    }
+    if args.len() >= 2 && args[1] == "bench-sched" {
+        props::c18::bench();
         return;
     }
     if args.len() < 2 {
@@ -53,6 +58,8 @@ fn main() {
         "C05" => props::c05::run_c05(&cx),
         "C09" => props::c05::run_c09(&cx),
         "C07" => props::c07::run_c07(&cx),
+        "C18" => props::c18::run_c18(&cx),
+        "C20" => props::c20::run_c20(&cx),
         "C14" => props::c14::run_c14(&cx),
         "C12" => props::c12::run_c12(&cx),
         "C16" => props::c16::run_c16(&cx),
@@ -74,6 +81,7 @@ fn main() {
 fn replay(case: &frmc_core::json::J) -> i32 {
     match case.str_of("kind").as_str() {
         "refsweep" | "shadow" | "c05" | "c09" | "c07" | "c13" | "c03" | "c04" | "c08" | "c10" | "c11" | "c16" | "c17" => refsweep::replay(case),
+        "c20" => props::c20::replay(case),
         k => {
             eprintln!("unknown replay kind {:?}", k);
             2
